@@ -1623,7 +1623,7 @@ Error query_features(Arch arch, const BaseInst& inst, const Operand_* operands, 
 
     // Handle PCLMULQDQ vs VPCLMULQDQ.
     if (out->has(Ext::kVPCLMULQDQ)) {
-      if (reg_analysis.has_reg_type(RegType::kVec512) || Support::test(options, InstOptions::kX86_Evex)) {
+      if (reg_analysis.has_reg_type(RegType::kVec512) || Support::test(options, InstOptions::kX86_Evex) || reg_analysis.high_vec_used) {
         // AVX512_F & VPCLMULQDQ.
         out->remove(Ext::kAVX, Ext::kPCLMULQDQ);
       }
